@@ -39,3 +39,20 @@ Example c11_nonvacuous :
   find_sampling [([], [{| dPenP := false; dType := 305; dPen := 0; dVal := Some [0;0;3;232] |}])] 0
   = Ok (true, 1000).
 Proof. vm_compute. reflexivity. Qed.
+
+(* at the level of one DecodeFlow call of the NetFlow pipe: the messages handed to the transport carry
+   that rate, and the pipe's sampling state afterwards differs from the one before only at the key
+   (exporter address, version, domain) of an announcement *)
+Theorem c11_step : forall cfg st e tr d st' o ms ver d0 p tnf s1 ms0 ss',
+  rd 2 d = Ok (ver, d0) -> (ver =? 5) = false -> (ver =? 9) || (ver =? 10) = true ->
+  decode_nf_body (tstores_get (psT st) (exp_id e)) ver d0 = Ok (p, tnf, s1) ->
+  produce_nf cfg (psS st) (addr_id (eAddr e)) p = (Ok ms0, ss') ->
+  nf_step cfg st e tr d = Ok (st', o, ms) ->
+  exists found rate,
+    find_sampling (optdata_records (pSets p)) 0 = Ok (found, rate) /\
+    Forall (fun m => mgetI m cSamplingRate =
+                     if found then rate else rate_of (psS st) (addr_id (eAddr e), pVer p, nf_dom (pVer p) (pHdr p))) ms /\
+    (forall k, rate_of (psS st') k =
+               if found && skey_eqb (addr_id (eAddr e), pVer p, nf_dom (pVer p) (pHdr p)) k then rate else rate_of (psS st) k).
+Proof. exact nf_step_rate. Qed.
+Print Assumptions c11_step.
